@@ -1922,7 +1922,8 @@ def run_C04(pid, tier, seed, model_ok=True):
                         elif l.startswith('FAILSET '):
                             res['model_fail'].add(l[8:])
             write_opfile(f, header, [(name, ops + tail)])
-            env = dict(os.environ, LD_PRELOAD=SHIM, UVH_KEEP='1', UVH_CUT_OP=str(cut_index))
+            # faults hit the files of the download directory too (Fault.downloadM models their system calls as steps)
+            env = dict(os.environ, LD_PRELOAD=SHIM, UVH_KEEP='1', UVH_CUT_OP=str(cut_index), UVH_FAULT_SCOPE='all')
             # uncut run (reference)
             ref = subprocess.run([UVH, 'replay', f, os.path.join(d, 'ref')], capture_output=True, text=True)
             res['ref'] = [l for l in ref.stdout.splitlines() if l.startswith('out=')]
